@@ -41,7 +41,9 @@ func (s *server) Select(selectorContext *Context) (string, error) {
 		}
 	}
 	if serverId == "" {
-		panic("unexpected behaviour")
+		// No selector could pick a server: there is no candidate left (e.g. the replication
+		// factor is larger than the number of servers). Refuse instead of crashing the coordinator.
+		return "", selectors.ErrUnsatisfiedEnsembleReplicas
 	}
 	return serverId, nil
 }
